@@ -228,6 +228,13 @@ package util
 //@   loop 1 invariant outWF(q)
 //@   loop 1 invariant 0 <= n && n + len(b) == len(old(b)) && (len(b) > 0 ==> &b[0] == &old(b)[n])
 //@   loop 1 decreases len(b)
+// C07: what Write reports as accepted is exactly what it queued: a chunk whose hand-over failed is already in the
+// queue (it will be retransmitted), so it is counted; the caller resumes after it and the peer never reads bytes
+// no write accounted for, nor the same bytes twice
+//@   callsite return#2 (b []byte, ret0 int) require ret0 + len(b) == len(old(b))           :every_queued_octet_is_counted_also_when_the_hand_over_failed
+
+// exported views for the packages that embed the queues
+//@ go func InReadable(q *InQueue, p []byte) bool { return inWF(q) && !spec_sameref(p, q.in) }
 
 // Sequence numbers are compared modulo 2^16; as long as the two ends are less than 2^15 packets apart the
 // 16-bit numbers identify the packets uniquely (used to lift the per-queue contracts to whole streams).
